@@ -1,7 +1,7 @@
 SPECIFICATION Spec
 CONSTANTS
   N = 5
-  OpNames = {"x", "y"}
+  OpNames = {"x"}
   Layouts = {"fwd", "rev", "split"}
 INVARIANTS Closure Shadow Emit
 CHECK_DEADLOCK FALSE
